@@ -31,6 +31,7 @@ Definition w_loop : list choice :=
    (IO, ANone);
    (IO, ASel [FC A] [] []);
    (IO, ANone);
+   (IO, ANone);
    (IO, ARecv (RData [mkItem false true false; mkItem true false false]));
    (IO, ANone);
    (IO, ANone);
@@ -59,6 +60,7 @@ Definition w_loop : list choice :=
    (W A, ANone);
    (W A, ANone);
    (W A, ABufLen 0);
+   (W A, ANone);
    (W A, ANone);
    (W A, ANone);
    (W A, ANone);
@@ -97,6 +99,7 @@ Definition w_once : list choice :=
    (IO, ANone);
    (IO, ANone);
    (IO, ASel [FC A] [] []);
+   (IO, ANone);
    (IO, ANone);
    (IO, ARecv (RData [mkItem false true false; mkItem true false false]));
    (IO, ANone);
